@@ -6,6 +6,7 @@ import (
 	"crypto/sha256"
 	"encoding/hex"
 	"fmt"
+	"hash/fnv"
 	"io"
 	"net"
 	"net/http"
@@ -101,7 +102,39 @@ func policyObj(name string) proxy.Policy {
 	return nil
 }
 
+// Boundary keys: strings whose 32-bit FNV-1a value (the hash the hash-based
+// policies are documented to use) lies within 7 of either end of the 32-bit
+// range (found by exhaustive search; re-verified at run time by
+// verifyBoundaryKeys). Index arithmetic on the hash is most likely to go wrong
+// exactly there.
+var (
+	boundaryURIs = []string{"/b/1270301194", "/b/145615797", "/b/159776751", "/b/1673067981", "/b/1725310449", "/b/1753197882", "/b/1893743273", "/b/500781647"}
+	boundaryIPs  = []string{"1.24.252.114", "102.26.27.31", "117.78.112.230", "14.51.251.116", "148.144.88.82", "254.26.208.61", "46.234.242.222", "62.30.225.15", "55.255.59.142", "250.87.193.12"}
+	boundaryHdrs = []string{"b1206468609", "b1370277697", "b1527746896", "b1759558428", "b2044350816", "b2079858723", "b2338254236", "b253274960", "b2612370443", "b306312057"}
+)
+
+func verifyBoundaryKeys(c *lib.Ctx) {
+	for _, l := range [][]string{boundaryURIs, boundaryIPs, boundaryHdrs} {
+		for _, k := range l {
+			h := fnv.New32a()
+			h.Write([]byte(k))
+			if v := h.Sum32(); v >= 0xFFFFFFF9 || v <= 5 {
+				c.Count("boundary_hash_keys_verified", 1)
+			} else {
+				c.Assume(fmt.Sprintf("key %q is not a boundary key of FNV-1a (hash %d)", k, v))
+			}
+		}
+	}
+}
+
 func mkReq(key int) *http.Request {
+	if key%4 == 1 {
+		i := key / 4
+		r := httptest.NewRequest("GET", boundaryURIs[i%len(boundaryURIs)], nil)
+		r.RemoteAddr = fmt.Sprintf("%s:%d", boundaryIPs[i%len(boundaryIPs)], 1000+key)
+		r.Header.Set("X-Key", boundaryHdrs[i%len(boundaryHdrs)])
+		return r
+	}
 	r := httptest.NewRequest("GET", fmt.Sprintf("/k/%d?x=%d", key*7919, key), nil)
 	r.RemoteAddr = fmt.Sprintf("10.%d.%d.%d:%d", key%251, (key*31)%253, (key*17)%255, 1000+key)
 	r.Header.Set("X-Key", fmt.Sprintf("v%d", key*104729))
@@ -131,6 +164,7 @@ func run(c *lib.Ctx) {
 }
 
 func policyLevel(c *lib.Ctx) {
+	verifyBoundaryKeys(c)
 	maxN := c.Pick(7, 10)
 	for n := 1; n <= maxN; n++ {
 		keys := 64
@@ -448,8 +482,12 @@ type scenario struct {
 	Kinds   []string `json:"backends"`
 	Body    int      `json:"body_bytes"`
 	Chunked bool     `json:"chunked"`
-	path    string
-	kinds   []backendKind
+	// SlowUploadMs > 0: the client pauses that long in the middle of its body;
+	// the block's try_duration is shorter than the pause (the retry budget is
+	// for finding a backend, not for the client's upload)
+	SlowUploadMs int `json:"client_pauses_ms_in_mid_body,omitempty"`
+	path         string
+	kinds        []backendKind
 }
 
 func endToEnd(c *lib.Ctx) {
@@ -503,8 +541,15 @@ func endToEnd(c *lib.Ctx) {
 		if sc.Body == 1<<20 && c.Quick() && rng.Intn(3) != 0 {
 			sc.Body = 64 << 10
 		}
+		nh := 0
 		for _, k := range p {
 			sc.Kinds = append(sc.Kinds, kindName[k])
+			if k == bHealthy {
+				nh++
+			}
+		}
+		if len(scs)%6 == 5 && nh > 0 && nh < len(p) && sc.Body >= 64<<10 {
+			sc.SlowUploadMs = 900
 		}
 		sc.path = fmt.Sprintf("/s%d", len(scs))
 		scs = append(scs, sc)
@@ -536,6 +581,8 @@ func endToEnd(c *lib.Ctx) {
 			td := "8s"
 			if !anyHealthy {
 				td = noneTry.String()
+			} else if sc.SlowUploadMs > 0 {
+				td = "500ms"
 			}
 			fmt.Fprintf(&cf, " proxy %s %s {\n  policy %s\n  try_duration %s\n  try_interval 10ms\n  fail_timeout 30s\n  max_fails 1\n }\n", sc.path, strings.Join(hosts, " "), sc.Policy, td)
 		}
@@ -615,7 +662,18 @@ func runScenario(c *lib.Ctx, addr string, sc *scenario, n int, healthy []*health
 	defer k.Close()
 	k.Timeout = 60 * time.Second
 	t0 := time.Now()
-	resp := k.Do(method, req.Bytes())
+	raw := req.Bytes()
+	if sc.SlowUploadMs > 0 {
+		cut := len(raw) - len(body)/2
+		if _, err := k.Raw().Write(raw[:cut]); err != nil {
+			c.Inconclusive("slow upload: " + err.Error())
+			return
+		}
+		time.Sleep(time.Duration(sc.SlowUploadMs) * time.Millisecond)
+		raw = raw[cut:]
+		c.Count("e2e_slow_uploads", 1)
+	}
+	resp := k.Do(method, raw)
 	el := time.Since(t0)
 	c.Eval(1)
 	if failing > 0 {
